@@ -770,6 +770,9 @@ class Interp(object):
             return a == b
         elif op == "!=":
             return a != b
+        elif op in ("&", "|", "^", "<<", ">>") and not is_sym(a) and not is_sym(b):
+            a, b = int(a), int(b)
+            r = {"&": a & b, "|": a | b, "^": a ^ b, "<<": a << b, ">>": a >> b}[op]
         else:
             raise Unsupported("binary %s" % op)
         if isinstance(r, SInt) and is_int_type(qt):
